@@ -8,6 +8,8 @@ def report(ctx, prop):
     for k in core.load_known():
         if k.get('property') != prop:
             continue
+        if 'witness' in k and os.path.exists(core.ROOT + '/' + k['witness']) and '"kind": "conc"' in open(core.ROOT + '/' + k['witness']).read():
+            continue      # schedule witnesses are replayed by the C06 check itself
         if k['kind'] == 'known':
             import replay
             wit = core.ROOT + '/' + k['witness']
